@@ -30,6 +30,33 @@ Theorem token_generation : forall (T : Type) (p : bparams) (acts1 acts2 : list (
 Proof. intros T. exact token_generation_proof. Qed.
 Print Assumptions token_generation.
 
+(* ---- late time-out callbacks: an expiry is committed (XExpire) and its callback sends the token it captured at any later
+   time (XDeliver), also after its batch was flushed and the next batch armed the timer again ---- *)
+
+Theorem batcher_concat_late : forall (T : Type) (p : bparams) (acts : list (bxaction T)),
+  let r := bx_run p acts bx_init in
+  concat (flushed_of (xb_events (fst r))) ++ batch (bx_b (snd r)) = added_of (xb_actions acts).
+Proof. intros T. exact batcher_concat_late_proof. Qed.
+Print Assumptions batcher_concat_late.
+
+(* The token of a committed callback flushes something only if its own batch is still the current one (t = token at s1) and
+   nothing has been handed out since. *)
+Theorem late_timeout_generation : forall (T : Type) (p : bparams) (acts1 acts2 : list (bxaction T)) (t : Z) (l : list T) (s3 : bstate T),
+  let s1 := snd (bx_run p acts1 bx_init) in
+  let r2 := bx_run p acts2 s1 in
+  In t (bx_committed s1) ->
+  b_flush t (bx_b (snd r2)) = (l, s3) -> l <> [] ->
+  t = token (bx_b s1) /\ concat (flushed_of (xb_events (fst r2))) = [].
+Proof. intros T. exact late_timeout_generation_proof. Qed.
+Print Assumptions late_timeout_generation.
+
+(* The time-out of an already flushed batch flushes nothing, however late its callback runs. *)
+Theorem late_timeout_of_flushed_batch_noop : forall (T : Type) (p : bparams) (acts : list (bxaction T)) (t : Z),
+  let s := snd (bx_run p acts bx_init) in
+  In t (bx_committed s) -> t <> token (bx_b s) -> b_flush t (bx_b s) = ([], bx_b s).
+Proof. intros T. exact late_timeout_of_flushed_batch_noop_proof. Qed.
+Print Assumptions late_timeout_of_flushed_batch_noop.
+
 (* ---- the reorder fetcher (repaired code, rp_fixed = true): every script of the adder, every schedule ---- *)
 
 (* For every list of actions (each one a step of the adder, of the time-out goroutine, a timer expiry, the completion of any
@@ -103,4 +130,9 @@ Proof. vm_compute. repeat split. Qed.
 Example token_generation_hypotheses_satisfiable :
   let s1 := snd (b_run (mkBP 3 true) [BAdd 7%N] b_init) in
   b_fire s1 = Some 0%Z /\ fst (b_flush 0%Z (snd (b_run (mkBP 3 true) [BAdd 8%N] s1))) = [7%N; 8%N].
+Proof. vm_compute. split; reflexivity. Qed.
+Example late_callback_regime_reachable :
+  let r := bx_run (mkBP 2 true) [XB (BAdd 1%N); XExpire; XB (BAdd 2%N); XB (BFlush (-1)%Z); XB (BAdd 3%N); XDeliver 0; XB (BFlush 0%Z)] bx_init in
+  fst r = [XE EAdded; XExpired (Some 0%Z); XE EAdded; XE (EFlushed (-1)%Z [1%N; 2%N]); XE EAdded; XDelivered (Some 0%Z);
+           XE (EFlushed 0%Z [])] /\ batch (bx_b (snd r)) = [3%N].
 Proof. vm_compute. split; reflexivity. Qed.
